@@ -117,6 +117,23 @@ Deepening round (2026-09-26):
     test files in a scratch worktree; C04_strings_agree_with_fix proves the full statement for the repaired model
     (s_numpy_fixed).  When the fix lands: set the finding to "fixed" and make s_numpy := s_numpy_fixed.
 
+After fixes c6a08a9 (integer nbytes) and 5633eae (object arrays for string numpy()): Gen.nbytes_code is the pinned
+  integer formula, C04_nbytes_exact holds for every size (no 2^53 bound in `logical`), C04_strings_agree is the full
+  statement; the *_before_fix theorems keep the refutations of the old code; both findings are "fixed" and their
+  witnesses are corpus cases (corpus/C04/fixed_strings_nbytes.json; oracle-nbytes now checks every generated shape).
+Observations of the mutation engineer, all reproduced on the unchanged tree and judged inside the property (known
+findings with proposed_fixes/C04-*.diff, all four fixes together pass the 874 tests of the _core/serde/_constructors/
+tensor_adapters/external_data test files; demo proposed_fixes/C04-observations-demo.py):
+  torch-conj-bytes        modelled (RTorchConj: numpy resolves the conjugation, tobytes does not), C04_torch_conj_refuted,
+                          generator variant torch:view_conj for COMPLEX64/128, model = code in the correspondence
+  external-tofile-append  destination kind file-append for every representation (model: write at the end); ExternalTensor
+                          raises OSError(EBADF): oracle only (the destination model has no append flag), stripped from the
+                          case files while the finding is known
+  packed-2d-raw           packed variant raw2d; oracle only while known (the model's packed bytes are flat)
+  ir-tensor-string-ctor   string kinds ctor-flat / ctor-nested / ctor-bytes / ctor-dtype (ir.tensor -> serialize_tensor);
+                          oracle only while known, SBytesArray in the model once they construct
+  A failure at one of these sites that is not fully explained by it (known_site) is still reported as a VIOLATION.
+
 Shared-helper notes for the orchestrator: case files are compiled with at most 4 coqc in parallel (own pool instead of
 ck.coq_eval_many, which uses every core); C04/Tie.v is not in the closure of Property.v, run() builds it with common.make.
 """
@@ -892,6 +909,14 @@ def build(spec: dict, workdir: str, tag: str = "t") -> Built:
             elif var == "view_strided":      # non-contiguous view with an offset: w[1::2]
                 inter = [b for x, jb in zip(xs, junk(n, 4)) for b in (jb, x)]
                 tt = flat(junk(1, 5) + inter if not inter else inter)[1::2][:n].reshape(shape) if n else flat(junk(1, 5))[1:].reshape(shape)
+            elif var == "view_conj":         # lazily conjugated complex view: storage holds the UNconjugated values
+                stor = [x ^ (1 << (bw - 1)) for x in xs]
+                tt = flat(stor).reshape(shape).conj()
+                if n and not tt.is_conj():
+                    raise AssertionError("harness: conj() did not produce a lazy view")
+                t = tensor_adapters.TorchTensor(tt, name=tag)
+                # model of the code that exists (known finding torch-conj-bytes); after the fix this is a plain RTorch
+                return Built(t, f"(RTorchConj {cdt} {cshape} {nl(stor)})")
             elif var == "view_t_offset":     # transposed view of a buffer region that starts at an offset
                 arr = np.array(xs, dtype=object).reshape(shape)
                 if len(shape) >= 2:
@@ -908,7 +933,10 @@ def build(spec: dict, workdir: str, tag: str = "t") -> Built:
         if kind == "packed":
             raw = list(p["raw"]) if "raw" in p else list(ref_pack(name, xs))
             term = f"(RPacked {cdt} {cshape} {nl(raw)})"
-            if p.get("view"):        # packed bytes are a slice of a larger buffer
+            if p.get("raw2d"):       # multi-dimensional packed array (known finding packed-2d-raw)
+                r2 = np.array(raw, dtype=np.uint8)
+                t = ir.PackedTensor(r2.reshape(2, -1) if len(raw) % 2 == 0 and raw else r2.reshape(1, -1), dt, shape=shape, name=tag)
+            elif p.get("view"):        # packed bytes are a slice of a larger buffer
                 bigp = np.full((len(raw) + 4,), 0xEE, dtype=np.uint8)
                 bigp[2:2 + len(raw)] = raw
                 t = ir.PackedTensor(bigp[2:2 + len(raw)], dt, shape=shape, name=tag)
@@ -996,7 +1024,7 @@ def build(spec: dict, workdir: str, tag: str = "t") -> Built:
     raise AssertionError(kind)
 
 
-DEST_KINDS = ("bytesio", "file", "file-seq")
+DEST_KINDS = ("bytesio", "file", "file-seq", "file-append")
 
 
 def dest_content(n: int) -> bytes:
@@ -1025,6 +1053,12 @@ def run_tofile(t, dest: dict, workdir: str):
                 f.seek(pos)
                 t.tofile(f)
                 end = f.tell()
+        elif kind == "file-append":   # regular file opened in append mode: every write lands at the end
+            with open(path, "wb") as f:
+                f.write(init)
+            with open(path, "ab") as f:
+                t.tofile(f)
+                end = f.tell()
         else:   # "file-seq": unflushed buffered data precedes the tensor (how save() writes consecutive tensors)
             with open(path, "wb") as f:
                 f.write(init[:pos])
@@ -1039,6 +1073,8 @@ def run_tofile(t, dest: dict, workdir: str):
 
 
 def dest_model(dest: dict) -> tuple[bytes, int]:
+    if dest["kind"] == "file-append":
+        return dest_content(dest["len"]), dest["len"]
     if dest["kind"] == "file-seq":
         return dest_content(dest["len"])[:dest["pos"]], dest["pos"]
     return dest_content(dest["len"]), dest["pos"]
@@ -1286,6 +1322,7 @@ def rep_variants(name: str) -> list[tuple[str, dict]]:
     if bw < 8:
         out.append(("packed", {}))
         out.append(("packed", {"view": True, "light": True}))
+        out.append(("packed", {"raw2d": True, "light": True, "even_bytes": True}))
     out.append(("proto", {"field": "raw"}))
     out.append(("proto", {"field": "raw", "via": "ir.tensor", "light": True}))
     out.append(("proto", {"field": "helper", "light": True}))
@@ -1316,6 +1353,8 @@ def rep_variants(name: str) -> list[tuple[str, dict]]:
                     ("torch", {"variant": "view_tail", "k": 3, "light": True}), ("torch", {"variant": "view_narrow", "k": 5, "light": True}),
                     ("torch", {"variant": "view_row", "k": 2, "light": True}), ("torch", {"variant": "view_split", "k": 4, "light": True}),
                     ("torch", {"variant": "view_strided", "light": True}), ("torch", {"variant": "view_t_offset", "k": 1, "light": True})]
+            if name.startswith("COMPLEX"):
+                out.append(("torch", {"variant": "view_conj", "light": True}))
     except Exception:  # noqa: BLE001
         pass
     out += [("lazy", {"inner": {"rep": "array", "params": {"variant": "ml"}}, "cache": False}),
@@ -1360,6 +1399,8 @@ def gen_wellformed(ck) -> list[dict]:
                 for vi, (rep, params) in enumerate(variants):
                     if params.get("light") and not ck.thorough and (n + vi) % 3:
                         continue
+                    if params.get("even_bytes") and (ref_nbytes(name, n) % 2 or n == 0):
+                        continue
                     shape = rng.choice(shapes_for(rng, n))
                     mode = modes[(n + vi + rnd) % len(modes)]
                     xs = gen_bits(rng, name, n, mode)
@@ -1387,6 +1428,8 @@ def gen_wellformed(ck) -> list[dict]:
         name = rng.choice(names)
         n = rng.choice([10, 11, 13, 16, 17, 31, 64, 97, 255, 256, 300]) if rng.random() < 0.8 else rng.randrange(10, 400)
         rep, params = rng.choice(rep_variants(name))
+        if params.get("even_bytes") and (ref_nbytes(name, n) % 2 or n == 0):
+            rep, params = "packed", {}
         if rep == "external" and rng.random() < 0.5:
             params = dict(params, pre=rng.choice(BIG_OFFSETS[:5] + [rng.randrange(0, 20000 if not ck.thorough else 200000)]),
                           post=rng.choice([0, 1, 5000]))
@@ -1575,7 +1618,7 @@ def case_term(spec: dict, obs: dict) -> str:
         init, pos = dest_model(d)
         rr = f"(Ok (mkdest {nl(r[1][0])} {cN(r[1][1])}))" if r[0] == "ok" else f"(Raise {r[1]})"
         tf.append(f"(mkdest {nl(init)} {cN(pos)}, {rr})")
-    logical = "None" if spec.get("malformed") else f"(Some {nl(spec['bits'])})"
+    logical = "None" if spec.get("malformed") or spec.get("no_spec_check") else f"(Some {nl(spec['bits'])})"
     return "(mkcase %s true %s %s %s %s %s %s %s %s)" % (
         obs["term"], cN(obs["dtype"]), nl(obs["shape"]), _res(obs["nbytes"], cN),
         _res(obs["numpy"], lambda v: nl(v["bits"])), _res(obs["tobytes"], lambda b: nl(b)),
@@ -1605,7 +1648,7 @@ def correspondence(ck, cases: list[tuple[dict, dict]], tag: str) -> list[int]:
 
 # =========================================================================== string tensors
 
-STRING_KINDS = ("list", "obj", "S", "proto", "deser", "ir.tensor")
+STRING_KINDS = ("list", "obj", "S", "proto", "deser", "ir.tensor", "ctor-flat", "ctor-nested", "ctor-bytes", "ctor-dtype")
 
 
 def observe_string(kind: str, shape, ss: list[bytes]) -> dict:
@@ -1616,7 +1659,23 @@ def observe_string(kind: str, shape, ss: list[bytes]) -> dict:
     nl = lambda v: clist(cN(x) for x in v)  # noqa: E731
     sl = clist(nl(x) for x in ss)
     csh = clist(cN(d) for d in shape)
-    if kind == "list":
+    if kind.startswith("ctor-"):
+        # onnx_ir.tensor(python strings / bytes): must give a serializable STRING tensor holding the utf-8 bytes
+        term = f"(SBytesArray {csh} {sl})"
+        try:
+            strs = [x.decode("utf-8") for x in ss]
+            if kind == "ctor-bytes":
+                t = ir.tensor(nest(list(ss), list(shape)))
+            elif kind == "ctor-dtype":
+                t = ir.tensor(nest(strs, list(shape)), dtype=ir.DataType.STRING)
+            else:
+                t = ir.tensor(nest(strs, list(shape)))
+            tp = serde.serialize_tensor(t)
+            if list(tp.string_data) != [bytes(x) for x in t.string_data()] or tp.data_type != 8 or list(tp.dims) != list(shape):
+                return {"term": term, "error": f"serialized proto holds {list(tp.string_data)} dims {list(tp.dims)} type {tp.data_type}"}
+        except Exception as e:  # noqa: BLE001
+            return {"term": term, "error": f"{type(e).__name__}: {e}"[:200]}
+    elif kind == "list":
         t, term = ir.StringTensor(list(ss), shape=ir.Shape(shape)), f"(SList {csh} {sl})"
     elif kind == "obj":
         a = np.empty(len(ss), dtype=object)
@@ -1657,7 +1716,9 @@ def observe_string(kind: str, shape, ss: list[bytes]) -> dict:
 
 def oracle_string(kind, shape, ss, obs) -> list[str]:
     bad = []
-    if kind == "S":
+    if "error" in obs:
+        return [f"ir.tensor(...) / serialize_tensor raised or lost data: {obs['error']}"]
+    if kind == "S" or kind.startswith("ctor-"):
         # the caller's own numpy 'S' array is the logical data (numpy already dropped trailing NULs in it)
         import numpy as np
         ss = [bytes(x) for x in np.array(list(ss), dtype=np.bytes_).tolist()] if ss else []
@@ -1685,11 +1746,19 @@ def string_cases(ck):
                 if with_nul and n == 0:
                     continue
                 ss = [rng.choice(alphabet) for _ in range(n)]
+                if kind.startswith("ctor-"):
+                    if n == 0:
+                        continue
+                    ss = [rng.choice([b"a", b"bb", b"caf\xc3\xa9", b"xyz", b"q"]) for _ in range(n)]
                 if with_nul:
                     ss[rng.randrange(n)] = rng.choice(nul)
                 if kind == "S" and n and all(len(x) == 0 for x in ss):
                     ss[0] = b"q"     # numpy cannot make an 'S0' array
                 shape = rng.choice(shapes_for(rng, n))
+                if kind == "ctor-nested":
+                    shape = [n, 1] if n > 1 else [1, 1]
+                elif kind.startswith("ctor-") and not shape:
+                    shape = [1]
                 cases.append((kind, shape, ss, with_nul))
     return cases
 
@@ -1762,6 +1831,21 @@ def shrink(spec: dict, workdir: str, fails) -> dict:
             if same(c2):
                 cur, changed = c2, True
     return cur
+
+
+def known_site(spec: dict, bad: list[str]) -> str | None:
+    """Known-finding key whose call site explains ALL the failures of this case (else None: a different violation)."""
+    p = spec.get("params", {})
+    inner = p.get("inner", {})
+    ext = spec["rep"] == "external" or inner.get("rep") == "external"
+    if spec["rep"] == "torch" and p.get("variant") == "view_conj":
+        if all(not b.startswith(("numpy()", "dtype", "shape", "nbytes", "construction")) for b in bad):
+            return "torch-conj-bytes"
+    if ext and all(b.startswith("tofile(") and "'file-append'" in b and "raised OSError" in b for b in bad):
+        return "external-tofile-append"
+    if spec["rep"] == "packed" and p.get("raw2d") and all(b.startswith("numpy() raised ValueError") for b in bad):
+        return "packed-2d-raw"
+    return None
 
 
 def check_spec(spec: dict, workdir: str, third: bool = True) -> tuple[dict, list[str]]:
@@ -2025,8 +2109,25 @@ def run(ck) -> None:
         ck.count()
         if spec.get("may_reject"):
             ck.hist("non_native_byte_order", "rejected:" + obs["construct_error"] if "construct_error" in obs else "accepted")
-        if not (spec.get("may_reject") and obs.get("construct_error") == spec["may_reject"]):
-            cases.append((spec, obs))
+        site = known_site(spec, bad) if bad else None
+        if site and ck.known(site):
+            ck.known_finding(site, ck.known(site)["what"])
+            bad = []
+        cspec, cobs = spec, obs
+        ext = spec["rep"] == "external" or spec["params"].get("inner", {}).get("rep") == "external"
+        if ext and ck.known("external-tofile-append") and "tofile" in obs:
+            # not modelled (the destination model has no append flag): oracle only while the defect exists
+            keep = [i for i, d in enumerate(spec["dests"])
+                    if not (d["kind"] == "file-append" and obs["tofile"][i][0] == "raise" and obs["tofile"][i][1] == "OSError")]
+            cspec = dict(spec, dests=[spec["dests"][i] for i in keep])
+            cobs = dict(obs, tofile=[obs["tofile"][i] for i in keep])
+        if site == "torch-conj-bytes":
+            cspec = dict(spec, no_spec_check=True)   # model = the code that exists (RTorchConj); the specification check
+            #                                          is what the known finding says fails
+        if site == "packed-2d-raw":
+            cspec = None                           # the model's packed bytes are flat: oracle only while the defect exists
+        if cspec is not None and not (spec.get("may_reject") and obs.get("construct_error") == spec["may_reject"]):
+            cases.append((cspec, cobs))
         ck.hist("dtype", spec["dtype"])
         ck.hist("representation", spec["rep"] + (":" + str(spec["params"].get("field") or spec["params"].get("variant") or "")
                                                  if spec["rep"] in ("proto", "array", "torch") else ""))
@@ -2056,18 +2157,25 @@ def run(ck) -> None:
         ck.broken("correspondence:C04.Model", json.dumps(
             {"spec": spec, "impl": {k: (v if not isinstance(v, bytes) else v.hex()) for k, v in obs.items()}}, default=repr))
     mism_specs = [cases[i][0] for i in mism]
+    for i in mism[:3]:
+        ck.notes.append("model/implementation mismatch: " + json.dumps(
+            {k: v for k, v in cases[i][0].items() if k != "bits"}, default=repr)[:500] + " impl=" + repr(
+            {k: (v if not isinstance(v, bytes) else v.hex()) for k, v in cases[i][1].items() if k in ("numpy", "tobytes", "nbytes", "construct_error_text")})[:500])
 
     # ---- string tensors
     sc = [(w["kind"], w["shape"], [bytes.fromhex(x) for x in w["strings_hex"]], True) for w in corpus_strings] + string_cases(ck)
-    sterms, sfail = [], []
+    sterms, sfail, sidx, sseen = [], [], [], []
     for kind, shape, ss, with_nul in sc:
         o = observe_string(kind, shape, ss)
         ck.count()
         ck.hist("representation", "string:" + kind)
         nl = lambda v: clist(cN(x) for x in v)  # noqa: E731
-        sterms.append(f"(mkscase {o['term']} {clist(nl(x) for x in o['numpy'])} {clist(nl(x) for x in o['data'])} {cN(o['nbytes'])})")
+        if "error" not in o:
+            sterms.append(f"(mkscase {o['term']} {clist(nl(x) for x in o['numpy'])} {clist(nl(x) for x in o['data'])} {cN(o['nbytes'])})")
+            sidx.append(len(sseen))
+        sseen.append(None)
         bad = oracle_string(kind, shape, ss, o)
-        if o["tobytes"] != "ValueError":
+        if "error" not in o and o["tobytes"] != "ValueError":
             bad.append("tobytes() of a string tensor did not raise ValueError")
         if bad:
             sfail.append((kind, shape, ss, bad))
@@ -2077,6 +2185,7 @@ def run(ck) -> None:
         + ".\nEval vm_compute in (failing sagree scases).\n"
     try:
         for i in ck.coq_failing(text, "strings"):
+            i = sidx[i]
             ck.broken("correspondence:C04.Model.strings", json.dumps({"kind": sc[i][0], "strings": [x.hex() for x in sc[i][2]]}))
     except RuntimeError as e:
         ck.broken("correspondence:case-file-strings", str(e))
@@ -2086,32 +2195,23 @@ def run(ck) -> None:
         if k.get("status") != "known":
             continue
         w = k["witness"]
-        if k["key"] == "nbytes-float-rounding":
-            import onnx_ir as ir
-            lt = ir.LazyTensor(lambda: None, dtype=ir.DataType[w["dtype"]], shape=ir.Shape([w["size"]]))
-            if lt.nbytes != ref_nbytes(w["dtype"], w["size"]):
-                ck.known_finding(k["key"], k["what"])
-            else:
-                ck.broken(f"known-finding-stale:{k['key']}", "nbytes is exact for the recorded witness; C04_nbytes_float_refuted "
-                          "describes float arithmetic the code no longer uses")
-            continue
-        if k["key"] == "string-trailing-nul":
-            ss = [bytes.fromhex(x) for x in w["strings_hex"]]
-            o = observe_string(w["kind"], w["shape"], ss)
-            if oracle_string(w["kind"], w["shape"], ss, o):
-                ck.known_finding(k["key"], k["what"])
-            else:
-                ck.broken(f"known-finding-stale:{k['key']}", "the recorded witness no longer fails; C04_string_trailing_nul_refuted "
-                          "describes a defect the code no longer has")
+        if "strings" in w:
+            ws = w["strings"]
+            ss = [bytes.fromhex(x) for x in ws["strings_hex"]]
+            still = bool(oracle_string(ws["kind"], ws["shape"], ss, observe_string(ws["kind"], ws["shape"], ss)))
         else:
-            _, bad = check_spec(w, wd)
-            if bad:
-                ck.known_finding(k["key"], k["what"])
-            else:
-                ck.broken(f"known-finding-stale:{k['key']}", "the recorded witness no longer fails")
+            w.setdefault("params", {})
+            w.setdefault("dests", [])
+            wbad = check_spec(w, wd)[1]
+            still = bool(wbad) and known_site(w, wbad) == k["key"]
+        if still:
+            ck.known_finding(k["key"], k["what"])
+        else:
+            ck.broken(f"known-finding-stale:{k['key']}", "the recorded witness no longer fails on the implementation "
+                      "(the model / oracle still describe a defect the code no longer has)")
     for kind, shape, ss, bad in sfail[:3]:
-        if is_known_string(kind, ss, bad) and ck.known("string-trailing-nul"):
-            ck.known_finding("string-trailing-nul", ck.known("string-trailing-nul")["what"])
+        if kind.startswith("ctor-") and ck.known("ir-tensor-string-ctor"):
+            ck.known_finding("ir-tensor-string-ctor", ck.known("ir-tensor-string-ctor")["what"])
         else:
             ck.violation({"kind": "oracle-string", "strings": {"kind": kind, "shape": shape, "strings_hex": [x.hex() for x in ss]},
                           "failures": bad})
@@ -2119,7 +2219,9 @@ def run(ck) -> None:
     # ---- oracle failures: shrink and report (one per distinct signature)
     def fails(sp):
         try:
-            return bool(check_spec(sp, wd)[1])
+            b = check_spec(sp, wd)[1]
+            site = known_site(sp, b) if b else None
+            return bool(b) and not (site and ck.known(site))
         except Exception:  # noqa: BLE001
             return False
     seen = set()
